@@ -123,7 +123,10 @@ def lockrow_to_table(row):
 # op = ("send"|"recv", kind);  model kind id: ping-from-server = KIND_PING, everything else default
 BASE = [("send", "presence"), ("recv", "ack"), ("send", "iq_ping"), ("recv", "iq_ping_from_server")]
 FOLLOWUPS = [(0, ("send", "presence")), (1, ("recv", "ack")), (1, ("send", "iq_ping")),
-             (0, ("recv", "iq_ping_from_server"))]
+             (0, ("recv", "iq_ping_from_server")),
+             # the answers to the application's own pings (the keep-alive bookkeeping never saw those ids), each on
+             # the other thread than the one before
+             (0, ("recv", "pong")), (1, ("send", "iq_ping")), (1, ("recv", "pong"))]
 
 MSG_FOLLOWUPS = [(0, ("send", "msg_a")), (1, ("send", "msg_b")), (1, ("send", "msg_a")), (0, ("recv", "ack")),
                  (0, ("send", "presence"))]
@@ -1110,7 +1113,7 @@ def oracle(scn, obs, notes):
             # processed normally: a send puts exactly one decryptable frame on the wire, an incoming ack
             # reaches the application, an incoming server ping is answered with one frame
             want_wire = 1 if (o["op"][0] == "send" or o["op"][1] == "iq_ping_from_server") else 0
-            want_top = 1 if o["op"] == ["recv", "ack"] else 0
+            want_top = 1 if o["op"] in (["recv", "ack"], ["recv", "pong"]) else 0
             if o["role"] == "lost":
                 continue      # the write that lost the connection: returned, nothing held; the frame itself is gone
             if o["wire_error"] or o["wire_frames"] != want_wire or o["top"] != want_top:
